@@ -65,3 +65,21 @@ Example C10_boundary :
   (exists pm c m, pm_clean 2 true false (Large l 1) 6%N = Ok (pm, c, m) /\ length (pm_entries pm) = 3)
   /\ (exists pm c m, pm_clean 2 true false (Large l 1) 7%N = Ok (pm, c, m) /\ keys (pm_entries pm) = [2; 3]%N).
 Proof. split; do 3 eexists; split; vm_compute; reflexivity. Qed.
+
+(* ---- staleness of the clock sample (http swarm worker) ----
+   the http swarm worker stamps announces with a shared deadline that a timer refreshes every
+   [http_peer_valid_until_refresh_secs] seconds (regenerated from swarm/mod.rs; 0 = the period is
+   no longer a literal).  A deadline is therefore computed from a clock sample at most one period
+   old, and a peer is never removed more than that much before announce time + max_peer_age. *)
+From Aquatic Require Import Consts.
+Theorem C10_http_sample_refreshed_every_second : (0 < http_peer_valid_until_refresh_secs <= 1)%N.
+Proof. vm_compute. split; congruence. Qed.
+Print Assumptions C10_http_sample_refreshed_every_second.
+
+Theorem C10_stale_sample_bound : forall refresh t sample age now,
+  (sample <= t)%N -> (t <= sample + refresh)%N -> (t + age <= u32_max)%N -> (now + refresh < t + age)%N ->
+  vu_valid (valid_until_new sample age) now = true.
+Proof.
+  intros refresh t sample age now H1 H2 H3 H4. apply C10_never_early; [lia|lia|right; lia].
+Qed.
+Print Assumptions C10_stale_sample_bound.
